@@ -99,6 +99,16 @@ def _safe_validate(vtype, val, name):
         return None
 
 
+def _as_value(err):
+    # From here on the error is a value (a cell's value, an array element).
+    # Without its traceback - and that of an exception it replaced, as in
+    # "except ZeroDivisionError: raise DivZeroExcelError()" - it does not
+    # keep the frames of this evaluation (and, through them, itself) alive.
+    err.__context__ = None
+    err.__cause__ = None
+    return err.with_traceback(None)
+
+
 def validate_args(func):
 
     @functools.wraps(func)
@@ -116,16 +126,14 @@ def validate_args(func):
                 bound.arguments[pname] = _validate(
                     sig.parameters[pname].annotation, value, pname)
             except xlerrors.ExcelError as err:
-                return err.with_traceback(None)
+                return _as_value(err)
         # 2. Run the function to compute the result.
         try:
             res = func(*bound.args, **bound.kwargs)
         except xlerrors.ExcelError as err:
             # Never crash on Excel errors as we want to store them as the cell
-            # value. From here on the error is a value: without its traceback
-            # it does not keep the frames of this evaluation (and, through
-            # them, itself) alive.
-            return err.with_traceback(None)
+            # value.
+            return _as_value(err)
         # 3. Convert the result to an Excel type. A function may also
         #    return (rather than raise) an error, which is handed on as is.
         if isinstance(res, xlerrors.ExcelError):
